@@ -9,6 +9,13 @@ declare -A CHECKS=(
  [C13-m1]="C13 C12" [C13-m2]="C13" [C14-m1]="C14" [C14-m2]="C14" [C15-m1]="C15" [C15-m2]="C15"
  [C16-m1]="C16" [C16-m2]="C16" [C17-m1]="C17" [C17-m2]="C17 C14" [C18-m1]="C18 C12" [C18-m2]="C18"
  [C19-m1]="C19" [C19-m2]="C19"
+ [C01-m3]="C01 C06" [C01-m4]="C01" [C02-m3]="C02 C04" [C02-m4]="C02 C06" [C03-m3]="C03" [C03-m4]="C03"
+ [C04-m3]="C04" [C04-m4]="C04" [C05-m3]="C05" [C05-m4]="C05" [C06-m3]="C06 C19" [C06-m4]="C06 C02"
+ [C07-m3]="C07 C10" [C07-m4]="C07 C04 C01" [C08-m3]="C08" [C08-m4]="C08" [C09-m3]="C09 C04" [C09-m4]="C09"
+ [C10-m3]="C10" [C10-m4]="C10 C07" [C11-m3]="C11" [C11-m4]="C11 C03" [C12-m3]="C12" [C12-m4]="C12"
+ [C13-m3]="C13" [C13-m4]="C13" [C14-m3]="C14" [C14-m4]="C14" [C15-m3]="C15 C18" [C15-m4]="C15"
+ [C16-m3]="C16" [C16-m4]="C16" [C17-m3]="C17" [C17-m4]="C17 C18" [C18-m3]="C18" [C18-m4]="C18"
+ [C19-m3]="C19" [C19-m4]="C19 C06"
 )
 for d in /verif/seeded/*/; do
   n=$(basename "$d"); [[ "$n" =~ $FILTER ]] || continue
